@@ -490,6 +490,8 @@ def rigid_case(rng, ctx, multi):
               dom_wires, cod_wires, loose, n_terms=len(terms), **witness)
     invariance(rng, ctx, d, F, reference, dom_wires, cod_wires, loose,
                family="rigid", **witness)
+    if rng.random() < .35:
+        reconfigured(rng, ctx, d, interp, multi, monitor, kinds)
     # requests outside the statement: counted only
     try:
         F("not a diagram")
@@ -507,6 +509,60 @@ def rigid_case(rng, ctx, multi):
             ctx.count("images_as_plain_Ty_" + ("agree" if same else "differ"))
         except Exception as err:
             ctx.count("images_as_plain_Ty_raised_" + type(err).__name__)
+
+
+def reconfigured(rng, ctx, d, interp, multi, monitor, kinds):
+    """
+    Histories: ONE functor object whose interpretation (the mapping it was given)
+    is changed between two calls on the same diagram.  Each call must compute
+    the meaning under the interpretation current at that call.
+    """
+    tensor = _K["tensor"]
+    other = None
+    for _ in range(6):
+        other = rand_interp(rng, multi)
+        if other.ob_dims != interp.ob_dims\
+                and ke.max_width(d, other) <= WIDTH_CAP:
+            break
+        other = None
+    if other is None:
+        return
+    now = {"interp": interp}
+    if rng.random() < .5:
+        ob = (lambda ty: now["interp"].ob_value(ty.objects[0], "int"))
+        ar = (lambda box: now["interp"].raw(box))
+        F = tensor.Functor(ob, ar)
+        style = "callables reading a shared setting"
+
+        def switch(to):
+            now["interp"] = to
+    else:
+        ob, ar = ke.functor_args(interp, d, style="dict")
+        F = tensor.Functor(ob, ar)
+        style = "dicts updated in place"
+
+        def switch(to):
+            ob2, ar2 = ke.functor_args(to, d, style="dict")
+            ob.update(ob2)
+            ar.update(ar2)
+    for k, current in enumerate([interp, other, interp]):
+        if k:
+            switch(current)
+        loose = multi and (has_adjoints(d.dom) or has_adjoints(d.cod))
+        try:
+            value = F(d)
+        except Exception as err:
+            ctx.fail(monitor, exception=type(err).__name__,
+                     message=str(err)[:300], call_number=k + 1, style=style,
+                     history="same functor object, interpretation changed "
+                     "between calls", **describe(d, current))
+            break
+        judge(ctx, monitor, value, ke.evaluate(d, current),
+              current.ty_wires(d.dom), current.ty_wires(d.cod), loose,
+              history="same functor object, interpretation changed between calls",
+              call_number=k + 1, style=style, box_kinds=kinds,
+              **describe(d, current))
+    ctx.count("reconfigured_functor_cases")
 
 
 def tensor_case(rng, ctx):
